@@ -12,7 +12,7 @@ Definition nothing_held (os : list obs) : Prop := forall o, In o os -> ob_out o 
 Definition phase (x : option expect) (o : obs) (seen : list obs) : list obs :=
   match x, seen with None, [] => [] | _, _ => o :: seen end.
 
-Inductive canaries_served (runs : bool) : list (op * option expect * bool) -> list obs -> list obs -> Prop :=
+Inductive canaries_served (runs : bool) : list (xop * option expect * bool) -> list obs -> list obs -> Prop :=
 | cs_end : forall seen, canaries_served runs [] [] seen
 | cs_plain : forall o full ops ob os seen,
     canaries_served runs ops os (phase None ob seen) ->
